@@ -57,6 +57,17 @@ pub struct Handler {
 	pub(crate) quit: Option<QuitManner>,
 }
 
+impl Drop for Handler {
+	fn drop(&mut self) {
+		// jobs created by an action that never made it back to the worker (the action was cancelled
+		// because Watchexec is shutting down, e.g. on a critical error) must not be left running
+		// detached: dropping a JoinHandle does not stop its task
+		for (_, (_, task)) in self.new.drain() {
+			task.abort();
+		}
+	}
+}
+
 impl Handler {
 	pub(crate) fn new(events: Arc<[Event]>, jobs: HashMap<Id, Job>) -> Self {
 		Self {
